@@ -13,6 +13,7 @@ UNITS = {
     "conditions_parse": {"template": "contracts/conditions_parse.vrs", "rlimit": 60},
     "conditions_effects": {"template": "contracts/conditions_effects.vrs", "rlimit": 120},
     "conditions_aggsig": {"template": "contracts/conditions_aggsig.vrs", "rlimit": 120},
+    "conditions_record": {"template": "contracts/conditions_record.vrs", "rlimit": 120},
     "sig_paths": {"template": "contracts/sig_paths.vrs", "rlimit": 60},
     "fast_forward": {"template": "contracts/fast_forward.vrs", "rlimit": 60},
     "fingerprint": {"template": "contracts/fingerprint.vrs", "rlimit": 60},
@@ -74,7 +75,7 @@ PROPS = {
         "technique": "Verus contracts on the real check_time_locks (extracted verbatim): iff-postcondition against per-assertion saturating-arithmetic spec, loop invariant over all spends",
         "level_text": "Deductive proof (Verus/Z3) over all inputs: check_time_locks returns Ok exactly when every folded assertion holds with saturating sums; unbounded in number of spends and in all u32/u64 values.",
         "level_note": "Assumes vstd HashMap model and key model for Bytes32; nowrap=true mode only. Folding (max for after-locks, min for before-locks, birth agreement, impossible-window rejection, relative-condition mark) is proved for parse_conditions against the effect spec; validate_conditions (unit validate_conds) is proved to accept iff no absolute before-lock is <= the absolute after-lock and no spend with a relative lock is ephemeral (iff, with is_ephemeral against its definition); the spec-level lemma fold-then-check == check-each is not machine-checked.",
-        "components": [V("time_locks"), V("conditions_effects"), V("validate_conds")],
+        "components": [V("time_locks"), V("conditions_effects"), V("validate_conds"), V("conditions_record")],
         "assumptions": [
             "vstd HashMap model; obeys_key_model::<Bytes32>() assumed (derived Hash/Eq on a byte array)",
             "nowrap=true only (legacy wrapping mode is outside the statement)",
@@ -107,9 +108,9 @@ PROPS["C11"] = {
 PROPS["C01"] = {
     "level": "proof",
     "technique": "Verus contracts on the real condition parser (parse_opcode, sanitizers, list helpers, SpendId::parse, parse_args extracted verbatim) proved equal to a table-driven rule spec over all allocator trees, opcodes and flag words",
-    "level_text": "Deductive proof (Verus/Z3), unbounded in tree shape, list length and flags: each condition is accepted or rejected and decoded exactly as the rule table (DESIGN Appendix A) prescribes (tier 1, iff), and whenever parse_conditions / process_single_spend accept a spend, its summary (costs, relative/absolute locks, birth assertions, reserved fee, added amounts, created-coin set, coin identity) equals the fold of the per-condition effect spec over the condition list (tier 2).",
+    "level_text": "Deductive proof (Verus/Z3), unbounded in tree shape, list length and flags: each condition is accepted or rejected and decoded exactly as the rule table (DESIGN Appendix A) prescribes (tier 1, iff), and whenever parse_conditions / process_single_spend accept a spend, its summary (costs, relative/absolute locks, birth assertions, reserved fee, added amounts, created-coin set, coin identity) equals the fold of the per-condition effect spec over the condition list (tier 2); every announcement, concurrent-spend / -puzzle assertion, ephemeral assertion, relative mark and message is recorded into ParseState exactly once under the right coin and nothing else is (unit conditions_record, per condition); validate_conditions accepts exactly when the recorded assertions are satisfied (unit validate_conds, iff); parse_spends / run_spendbundle / run_block_generator2 string these together (unit drivers).",
     "level_note": "Assumed: clvmr Allocator accessor contracts (abstract immutable tree), bitflags semantics with constants read from flags.rs each run, 2-byte cost table entries (decided by native-eval under C04). Error codes are not part of the contract, accept/reject and the decoded value are.",
-    "components": [V("conditions_effects"), V("mempool_visitor"), V("validate_conds"), V("drivers")],
+    "components": [V("conditions_effects"), V("mempool_visitor"), V("validate_conds"), V("drivers"), V("conditions_record")],
     "assumptions": [
         "clvmr::Allocator accessor contracts over an abstract immutable tree (shims/clvmr.rs)",
         "bitflags contains() == bit test on the constants read from flags.rs",
@@ -117,7 +118,7 @@ PROPS["C01"] = {
     ],
     "not_covered": [
         "the summary contract of parse_conditions is one-directional (accept ==> summary equals the rule spec); rejection for un-modelled reasons (bad keys, message modes) is not characterised",
-        "that parse_conditions records every announcement / concurrent / message / ephemeral assertion into ParseState (the sets validate_conditions reads): validate_conditions is proved against the recorded sets (unit validate_conds, iff), the recording itself is not in the summary projection; Message::make_key framing",
+        "Message::make_key / SpendId::from_self framing of message keys (uninterpreted): what is proved is that each message condition queues exactly one entry with the condition's peer, text and sign (unit conditions_record) and that validate_conditions balances the queue per key (unit validate_conds)",
         "MempoolVisitor::post_spend / post_process (iterator closures); new_spend and condition are under contract (mempool_visitor unit)",
     ],
 }
